@@ -19,6 +19,9 @@ import vlib
 from vlib import Inconclusive
 
 LABEL_ASPECTS = storecmp.LABEL_ASPECTS
+# stale label entries after re-labelling an element were a finding of C03 (repaired in the tree): set to 1 to
+# stop judging them on a tree that still has it
+LENIENT_RELABEL = os.environ.get("VERIF_C04_LENIENT_RELABEL", "0") == "1"
 
 
 def store_spec_differs():
@@ -32,7 +35,7 @@ def store_spec_differs():
 
 # ------------------------------------------------------------------ generation (TLC)
 def restart_histories(ctx):
-    plan = [("Reopen_r2.cfg", None, None), ("Reopen_sim.cfg", "num=%d" % (120 if ctx.tier == "quick" else 1500), 14)]
+    plan = [("Reopen_r2.cfg", None, None), ("Reopen_sim.cfg", "num=%d" % (60 if ctx.tier == "quick" else 1500), 14)]
     if ctx.tier != "quick":
         plan.insert(1, ("Reopen_r3.cfg", None, None))
     hs, seen = [], set()
@@ -50,7 +53,7 @@ def restart_histories(ctx):
 
 def crash_states(ctx):
     plan = [("KVGraphImpl_c2.cfg" if ctx.tier == "quick" else "KVGraphImpl_c3.cfg", None, None),
-            ("KVGraphImpl_sim.cfg", "num=%d" % (40 if ctx.tier == "quick" else 400), 9)]
+            ("KVGraphImpl_sim.cfg", "num=%d" % (24 if ctx.tier == "quick" else 400), 9)]
     out, seen = [], set()
     for cfg, sim, depth in plan:
         res = ctx.tlc("reopen", "KVGraphImpl", cfg, simulate=sim, depth=depth, timeout=1500, workers=(1 if sim else 8), count=(sim is None))
@@ -149,7 +152,7 @@ def label_dirs(spec, real):
     return out or {"label-index-duplicates"}
 
 
-def step_aspects(call, obs, real):
+def step_aspects(call, obs, real, mask_labels=False):
     aspects, labels = [], set()
     for g in ("g1", "g2", "g3"):
         if (g in obs) != (g in real and "listed_but_unopenable" not in real.get(g, {})):
@@ -159,6 +162,8 @@ def step_aspects(call, obs, real):
             if not real[g].get("listed", True):
                 aspects.append("graph-not-listed")
             asp = storecmp.cmp_graph(obs[g], real[g])
+            if mask_labels:
+                asp = [a for a in asp if a not in LABEL_ASPECTS]
             if set(asp) & LABEL_ASPECTS:
                 labels |= label_dirs(obs[g], real[g])
             if g != call.get("g") and call.get("op") != "Restart" and asp:
@@ -173,6 +178,14 @@ def classes(aspects, labels):
     return sorted(storecmp.classes(rest) | (labels if set(aspects) & LABEL_ASPECTS else set()))
 
 
+def family(op):
+    return {"AddVertex": "add", "AddEdge": "add", "BulkAdd": "add", "DelVertex": "delete", "DelEdge": "delete"}.get(op, op)
+
+
+# Integrity classes of Reopen.tla under the names lib/storecmp uses for the same thing
+CLASS_NAMES = {"element-not-reachable-by-label": "label-index-missing", "label-index-dangling": "label-index-stale"}
+
+
 def check_restart_history(h, steps, tbl):
     """-> (divergence | None, info).  Only divergences at or after the first Restart are C04's business; the
     calls before it are C03's.  Stale label entries after a re-labelling (open finding of C03) are masked."""
@@ -182,14 +195,17 @@ def check_restart_history(h, steps, tbl):
         after = storecmp.nstate(e["after"])
         is_restart = call["op"] == "Restart"
         restarted = restarted or is_restart
-        relabelled = relabelled or bool(e.get("relabel"))
+        relabelled = relabelled or (LENIENT_RELABEL and bool(e.get("relabel")))
         if is_restart:
             tag = "Restart"
+        elif restarted:
+            # one defect of reopening shows after every kind of add: the signature names the family of the call only
+            tag = "%s after restart" % family(call["op"])
         else:
             shape = storecmp.call_shape(call, before)
             if e["res"] == "error" and shape != "no-graph":
                 shape = "invalid"
-            tag = "%s(%s)%s" % (call["op"], shape, " after restart" if restarted else "")
+            tag = "%s(%s)" % (call["op"], shape)
         want, got = e["res"], st["res"]
         if got == "panic":
             return (n, "reopen %s: panic" % tag, st.get("msg")), restarted
@@ -198,9 +214,7 @@ def check_restart_history(h, steps, tbl):
         obs = tbl.get(json.dumps(after, sort_keys=True))
         if obs is None:
             raise Inconclusive("spec state missing from the observation table")
-        aspects, labels = step_aspects(call, storecmp.dictify(obs), st["obs"])
-        if relabelled:
-            aspects = [a for a in aspects if a not in LABEL_ASPECTS]
+        aspects, labels = step_aspects(call, storecmp.dictify(obs), st["obs"], mask_labels=relabelled)
         if aspects:
             return (n, "reopen %s: %s" % (tag, ",".join(classes(aspects, labels))), dict(aspects=sorted(set(aspects)))), restarted
         if not is_restart:
@@ -218,20 +232,20 @@ def crash_shape(call, before):
     """shape of the interrupted call relative to the specified state before it"""
     shape = storecmp.call_shape(call, before)
     G = before.get(call.get("g"))
-    if G is not None and call["op"] in ("AddEdge", "BulkAdd"):
+    if G is not None and call["op"] in ("AddVertex", "AddEdge", "BulkAdd"):
         last = {}
-        rekey = False
         for el in call.get("elems", []):
-            if el["k"] != "e":
-                continue
             r = el["r"]
-            key = (r["from"], r["to"], r["label"])
-            old = last.get(r["id"]) or (G["E"].get(r["id"]) and (G["E"][r["id"]]["from"], G["E"][r["id"]]["to"], G["E"][r["id"]]["label"]))
+            tbl = G["V"] if el["k"] == "v" else G["E"]
+            key = (r["label"],) if el["k"] == "v" else (r["from"], r["to"], r["label"])
+            old = last.get((el["k"], r["id"]))
+            if old is None and r["id"] in tbl:
+                o = tbl[r["id"]]
+                old = (o["label"],) if el["k"] == "v" else (o["from"], o["to"], o["label"])
             if old and old != key:
-                rekey = True
-            last[r["id"]] = key
-        if rekey:
-            return "re-keys an edge"
+                # the element keeps its id but moves to other index entries: the add is followed by clean-up writes
+                return "re-labels or re-keys an element"
+            last[(el["k"], r["id"])] = key
     return shape
 
 
@@ -302,7 +316,7 @@ def run(ctx):
 
     # ---------------------------------------------------------------- replay: crash points
     creqs = []
-    per_state = 10 if ctx.tier == "quick" else 30
+    per_state = 8 if ctx.tier == "quick" else 30
     for si, s in enumerate(states):
         cases = list(range(len(s["cases"])))
         if s["random"] and len(cases) > per_state:
@@ -368,7 +382,7 @@ def run(ctx):
             jl.append(dict(kind="done", i=len(jl), calls=calls, call=case["call"], obs=dobs))
             meta.append(("done", n))
     text = "".join(json.dumps(x, separators=(",", ":")) + "\n" for x in jl)
-    jr = ctx.tlc("reopen", "Reopen", "Reopen_judge.cfg", files={"obs.ndjson": text}, workers=1, timeout=2400,
+    jr = ctx.tlc("reopen", "Reopen", "Reopen_judge_lenient.cfg" if LENIENT_RELABEL else "Reopen_judge.cfg", files={"obs.ndjson": text}, workers=1, timeout=2400,
                  count=False, heap="12g")
     verdicts = {v["i"]: v for v in jr.msgs.get("verdict", [])}
     if len(verdicts) != len(jl):
@@ -415,7 +429,7 @@ def run(ctx):
         d, hi, full = rreqs[n]
         h = hs[hi]
         f2 = twins.get(n)
-        if f2 is not None and f2[1] == found[1].replace(" after restart", ""):
+        if f2 is not None and f2[1].split(": ", 1)[-1] == found[1].split(": ", 1)[-1]:
             not_reopen += 1
             continue
         step, sig, detail = found
@@ -444,7 +458,7 @@ def run(ctx):
         if "crashes" not in o:
             continue
         call = case["call"]
-        if o["n"] != case["n"] or o["kinds"] != case["kinds"]:
+        if o["n"] != case["n"] or sorted(o["kinds"]) != sorted(case["kinds"]):
             drift["%s: the call issued %d top-level writes %s, the model has %d %s" % (call["op"], o["n"], "/".join(o["kinds"]), case["n"], "/".join(case["kinds"]))] += 1
         v1 = judged.get((n, 1))
         # the state the call started from must itself be sound, otherwise this is not about the crash
@@ -456,6 +470,7 @@ def run(ctx):
         tag = "%s(%s)" % (call["op"], shape)
         rep = dict(history=calls, interrupted_call=call, writes=o["kinds"])
         bad_by_class = {}
+        k1_bad = False
         for cr in o["crashes"]:
             k = cr["k"]
             if "no_crash" in cr:
@@ -465,7 +480,7 @@ def run(ctx):
             if v is None:
                 continue
             agree = bool(v["adm"] or v["integ"]) == bool(case["predBad"][k - 1]) if k <= len(case["predBad"]) else None
-            if st["modelOK"] and agree is not None:
+            if st["modelOK"] and agree is not None and not v["lenient"]:
                 pred["agree" if agree else ("model-missed" if (v["adm"] or v["integ"]) else "model-only")] += 1
             if v["integ"]:
                 bad_by_class.setdefault(INTEGRITY, []).append(dict(before_write=k, of=o["n"], broken=sorted(v["integ"]), observed=cr["obs"]))
@@ -484,11 +499,19 @@ def run(ctx):
                         cbad.append("returns %s, specified %s" % (cr.get("cont_res"), cv["res"]))
                     if not cv["same"]:
                         cbad.append("state differs")
-                    if cv["integ"]:
-                        cbad.append("integrity lost")
-                    if cbad:
-                        ctx.diverge("recovery after interrupted %s, then %s: %s" % (tag, cc["op"], ",".join(cbad)),
-                                    "the call issued after reopening a crashed store does not behave as on the state that was observed after the crash",
+                    cbad += sorted(CLASS_NAMES.get(x, x) for x in cv["integ"])
+                    if cbad and k == 1:
+                        # nothing had been written: this is a plain reopen followed by a call (Transparent)
+                        k1_bad = True
+                        ctx.diverge("reopen %s after restart: %s" % (family(cc["op"]), ",".join(cbad)),
+                                    "a store was reopened (the interrupted call had written nothing) and the next call does not behave as on the never-stopped store",
+                                    dict(rep, before_write=k, observed_after_reopen=cr["obs"], next_call=cc, specified=dict(res=cv["res"], after=cv["after"]),
+                                         observed=dict(res=cr.get("cont_res"), msg=cr.get("cont_msg"), obs=cr.get("cont_obs"))))
+                    elif cbad and not k1_bad:
+                        # attributed to the interrupted call: what it left behind was not visible right after the crash
+                        ctx.diverge("crash %s interrupted: %s" % (tag, INTEGRITY if not (set(cbad) - set(CLASS_NAMES.values()) - set(cv["integ"])) else "the next call misbehaves"),
+                                    "what the interrupted call left behind shows at the next call (%s: %s): it does not behave as on the state observed after the crash"
+                                    % (cc["op"], ",".join(cbad)),
                                     dict(rep, before_write=k, observed_after_crash=cr["obs"], next_call=cc, specified=dict(res=cv["res"], after=cv["after"]),
                                          observed=dict(res=cr.get("cont_res"), msg=cr.get("cont_msg"), obs=cr.get("cont_obs")), broken=sorted(cv["integ"])))
         for cls, occ in bad_by_class.items():
@@ -521,8 +544,8 @@ def run(ctx):
         ctx.notes.append("spec/reopen/GraphStore.tla differs from spec/store/GraphStore.tla (the copy of the abstract store used here is older or newer)")
     for d, c in drift.most_common(8):
         ctx.notes.append("MODEL-DRIFT (%d cases) %s" % (c, d))
-    if pred.get("model-missed") or pred.get("model-only"):
-        ctx.notes.append("MODEL-DRIFT predictions of KVGraphImpl vs judged crash points: %s" % dict(pred))
+    if pred.get("model-missed"):
+        ctx.notes.append("MODEL-DRIFT KVGraphImpl predicted a sound outcome for %d crash points whose real read-back was judged unsound" % pred["model-missed"])
     for h in hs[:: max(1, len(hs) // 3)][:3]:
         ctx.sample([x["call"] for x in h])
     for r in creqs[:: max(1, len(creqs) // 3)][:3]:
@@ -531,7 +554,7 @@ def run(ctx):
     ctx.cov.update(evaluations=nsteps + points, distinct_nontrivial=len(hs) + points, traces_validated_against_impl=len(rreqs) + points,
                    restart_histories=len(hs), restart_replays=len(rreqs), restart_steps_compared=nsteps,
                    crash_cases=len(creqs), crash_points=points, crash_points_judged_by_tlc=len(judged), recovery_calls_judged=len(conts),
-                   model_prediction_agreement=dict(pred), divergences_also_without_restart=not_reopen,
+                   model_prediction_agreement=dict(pred),   # model-only: keys the model calls unsound but no observation shows divergences_also_without_restart=not_reopen,
                    histories_diverging_before_the_restart=pre_restart, crash_cases_on_unsound_start_state=prefix_bad,
                    drivers=drivers(ctx),
                    rule="restarts: all sequences of 2 calls%s over the 64-call alphabet of GraphStore.tla with a restart after the 1st / 2nd%s call, "
@@ -545,7 +568,6 @@ def run(ctx):
         "torn writes inside Badger/Bolt/LevelDB and power loss are outside the model",
         "a crash is modelled by abandoning the request before a write and building a new kvgraph over the same store (all in-memory state dropped); "
         "clean restarts additionally close and re-open the store directory (a share of the histories in the quick tier, all in the thorough tier)",
-        "stale label-index entries after RE-LABELLING an existing element are the open finding of C03 and are not judged here (histories are flagged by the spec)",
         "timestamps are not compared across a restart (every graph is touched at open); after it they must follow successful mutations as in C03",
         "after a crash only ONE further call is judged (from the state observed after the crash); longer continuations are covered for clean restarts only",
         "re-creating an existing graph, batches mixing valid and invalid elements and the result code of deleting something absent are left open (as in C03)",
